@@ -132,6 +132,21 @@ def run(ctx):
         others = [e for e in p.events if e.kind == 'call' and e.ftext == 'gdb.execute' and e.argtext(0) not in ("'quit'", "'continue'")]
         ctx.check(not others, 'C10.4', 'invoke:no-other-gdb-command', f_inv.loc(), 'no other GDB command is issued')
 
+    for q, want in (('WlCommand.invoke', 'arg'), ('WlSubcommand.invoke', "self.command + ' ' + arg")):
+        f = repo.try_func(q)
+        if f is None:
+            continue
+        for p in paths_of(repo, f):
+            c = [e for e in p.events if e.kind == 'call' and e.ftext == 'self.plugin.invoke_command']
+            ctx.check(len(c) == 1 and c[0].argtext(0) == want, 'C10.4', 'gdb-command:%s' % q, f.loc(), '%s hands the typed text to invoke_command once' % q, '%s does %s' % (q, [e.text[:60] for e in c]))
+    f_pinit = repo.try_func('Plugin.__init__')
+    if f_pinit is not None:
+        subs = [n for n in f_pinit.body_nodes() if isinstance(n, ast.Call) and norm(n.func) == 'WlSubcommand']
+        ok = any(isinstance(getattr(n, '_parent', None), ast.Expr) and isinstance(n._parent._parent, ast.For) and norm(n._parent._parent.iter) == 'command_sink.toplevel_commands()' and norm(n.args[1]) == norm(n._parent._parent.target) for n in subs)
+        ctx.check(ok, 'C10.4', 'gdb-command:subcommands-registered', f_pinit.loc(), 'a wl<command> GDB command is registered for every toplevel command')
+        f_tl = repo.func('Controller.toplevel_commands')
+        for p in paths_of(repo, f_tl):
+            ctx.check(p.outcome[0] == 'return' and norm(p.outcome[1]) == '[command.name for command in self.commands]', 'C10.4', 'toplevel-commands:all', f_tl.loc(), 'toplevel_commands lists every registered command')
     # ---- C10.5 command registry ------------------------------------------------------------------------------------
     reg = command_registry(repo)
     ctx.floor('C10.5', len(reg), 8, 'registered commands')
